@@ -145,6 +145,13 @@ int main(int argc, char** argv) {
             cs = do_compress(mc, attach, level, s, (size_t)n, idFlag, &e1);
             if (!ZSTD_isError(cs)) fid = ZSTD_getDictID_fromFrame(comp, cs);
             ds = ZSTD_isError(cs) ? cs : do_decompress(md, s, cs, (size_t)n, &e2);
+            /* a successful decode with wrong bytes: which side is at fault?  decode the same frame once more, single call with the raw dictionary bytes */
+            if (!ZSTD_isError(cs) && !ZSTD_isError(ds) && !(ds == (size_t)n && !memcmp(out, src, n))) { ZSTD_DCtx* d2 = ZSTD_createDCtx(); static unsigned char* out2 = NULL; size_t r2; if (!out2) out2 = malloc((1 << 22) + 64);
+                r2 = !strcmp(mc, "refPrefix") ? 0 : ZSTD_decompress_usingDict(d2, out2, (size_t)n + 64, comp, cs, dict[s], dictSize[s]); ZSTD_freeDCtx(d2);
+                fprintf(T, "{\"e\":\"rtdiag\",\"altOk\":%s,\"altSize\":%zu,\"firstDiff\":%ld,\"got\":%zu}\n", (!ZSTD_isError(r2) && r2 == (size_t)n && !memcmp(out2, src, n)) ? "true" : "false", ZSTD_isError(r2) ? 0 : r2,
+                        (long)({ long k = 0; while (k < n && k < (long)ds && out[k] == src[k]) k++; k; }), ds);
+                if (getenv("DICTDRV_DUMP")) { int k; for (k = 0; k < NSLOT; k++) if (dictSize[k] > 300) { size_t j, eq = 0; for (j = 0; j < 200; j++) eq += out[j] == dict[k][dictSize[k] - 200 + j]; fprintf(T, "{\"e\":\"rtdiag\",\"altOk\":true,\"altSize\":%d,\"firstDiff\":%zu,\"got\":0}\n", k, eq); } }
+                if (getenv("DICTDRV_DUMP")) { char nm[300]; FILE* D; snprintf(nm, sizeof(nm), "%s.frame.zst", getenv("DICTDRV_DUMP")); D = fopen(nm, "wb"); if (D) { fwrite(comp, 1, cs, D); fclose(D); } } }
             fprintf(T, "{\"e\":\"rt\",\"slot\":%d,\"dkind\":\"%s\",\"dsize\":%zu,\"mc\":\"%s\",\"attach\":%d,\"md\":\"%s\",\"level\":%d,\"n\":%ld,\"idFlag\":%d,\"cok\":%s,\"cerr\":\"%s\",\"frameID\":%u,\"dictID\":%u,\"dok\":%s,\"derr\":\"%s\",\"match\":%s}\n",
                     s, dictKind[s], dictSize[s], mc, attach, md, level, n, (!strcmp(mc, "usingDict") || !strcmp(mc, "cdictCopy") || !strcmp(mc, "cdictRef")) ? 1 : idFlag, ZSTD_isError(cs) ? "false" : "true", e1, fid,
                     dictSize[s] >= 8 ? ZSTD_getDictID_fromDict(dict[s], dictSize[s]) : 0, (!ZSTD_isError(cs) && !ZSTD_isError(ds)) ? "true" : "false", ZSTD_isError(cs) ? "" : e2,
